@@ -8,6 +8,16 @@ COMMON_TB = [
     "operations run on the real code, observations printed as Coq terms and compared inside Coq",
 ]
 
+
+AUDIT_TB = [
+    "fidelity audit of the hand-written models against the sources: AUDIT.md (function-by-function tables, every `?` "
+    "early return, third-party assumptions and where they are encoded, unmodelled code)",
+    "assumed: tokio's cooperative budget never interrupts a poll (inside a tokio task a poll may return Pending early, "
+    "after self-waking, once 128 budget units are used; the harness polls outside a task, so statements of the form "
+    "'a poll that returned Pending at T processed everything due at T' hold up to such self-woken re-polls)",
+    "assumed: request/response buffer sizes >= 1 (tokio's mpsc::channel(0) panics: a configuration precondition); one "
+    "integer-millisecond clock stands for std's and tokio's clocks (the harness keeps them equal)",
+]
 HDR = ("From Coq Require Import List NArith ZArith Bool.\nImport ListNotations.\n"
        "From TarpcV Require Import Base {mods}.\n")
 
@@ -614,15 +624,6 @@ SPECS["C04"] = _server_spec(
 # ---------------------------------------------------------------------------------------------
 # Client-side parts: one driver (harness `cli`), one model (Client.v), one monitor fold
 # (ClientMon.v); each property has its own Checks module selecting its verdict.
-AUDIT_TB = [
-    "fidelity audit of the hand-written models against the sources: AUDIT.md (function-by-function tables, every `?` "
-    "early return, third-party assumptions and where they are encoded, unmodelled code)",
-    "assumed: tokio's cooperative budget never interrupts a poll (inside a tokio task a poll may return Pending early, "
-    "after self-waking, once 128 budget units are used; the harness polls outside a task, so statements of the form "
-    "'a poll that returned Pending at T processed everything due at T' hold up to such self-woken re-polls)",
-    "assumed: request/response buffer sizes >= 1 (tokio's mpsc::channel(0) panics: a configuration precondition); one "
-    "integer-millisecond clock stands for std's and tokio's clocks (the harness keeps them equal)",
-]
 CLIENT_TB = AUDIT_TB + [
     "modelled, not verified: tokio bounded/unbounded mpsc, tokio oneshot, tokio-util DelayQueue "
     "(ms granularity), futures Fuse, as sequential data structures (Client.v header)",
